@@ -39,6 +39,8 @@ class Stack:
                 return []
             if m == "lossy" and rng.random() < p:
                 return []
+            if m == "noping" and direction == "up" and b"APING" in data:
+                return []       # the keep-alive pings get lost (say, dropped by a filter), everything else passes
             if m == "rferr":
                 # the home module answers pings and hellos itself; everything for the spa side is answered with RFERR
                 if direction == "up" and not (b"APING" in data or b"<HELLO>" in data):
